@@ -195,7 +195,7 @@ Definition raw_label (flt : sfilter) (v : val) : val :=
 
 Lemma label_cell_parts : forall flt dc v, label_cell_ok flt dc v = true ->
   infer_cell (render_val flt v) = Ok (raw_label flt v) /\
-  (if Nat.ltb 1 dc then decode_label_cell flt (raw_label flt v) else raw_label flt v) = v.
+  (if label_filter_on dc then decode_label_cell flt (raw_label flt v) else raw_label flt v) = v.
 Proof.
   intros flt dc v H. unfold label_cell_ok in H. apply andb_true_iff in H as [_ H].
   unfold raw_label. destruct (infer_cell (render_val flt v)) as [w|e]; [|discriminate].
